@@ -274,7 +274,10 @@ class Op:
         return path_class(self.path)
 
     def is_mutation(self):
-        """Does this operation modify the world (by the rules of C04)?"""
+        """Does this operation modify the world (by the rules of C04)?  A call that failed (an unlink of a path that does
+        not exist, a refused open) changed nothing; a call that the seam itself prevented is not counted either."""
+        if self.ret < 0:
+            return False
         if self.kind in MUTATING_KINDS:
             return True
         if self.kind == "OPEN_W":
